@@ -4,6 +4,7 @@ pyvc.ops -- CPython operator semantics on interpreter values (DESIGN E1-E7).
 Floats are modelled as the real number they denote and float arithmetic as exact real arithmetic;
 every use sets the flag 'real_arith' on the context so the evidence can report the assumption.
 """
+import ast
 import z3
 import datetime
 import operator as _op
@@ -540,6 +541,13 @@ class Ops(object):
             if isinstance(base.cls, ClassRef):
                 m = base.cls.find_method(name)
                 if m is not None:
+                    decos = [d.id for d in getattr(m.node, 'decorator_list', ()) if isinstance(d, ast.Name)]
+                    if 'staticmethod' in decos:
+                        return m                                   # no instance is bound
+                    if 'classmethod' in decos:
+                        return BoundMethod(base.cls, m)
+                    if 'property' in decos:
+                        return it.call(m, [base])
                     return BoundMethod(base, m)
                 v = self.world.class_attr(it, base.cls, name)
                 if v is not NotImplemented:
